@@ -17,6 +17,7 @@ from nix_manipulator.expressions.trivia import (
     layout_from_gap,
     trim_leading_layout_trivia,
 )
+from nix_manipulator.expressions.layout import point_row
 
 
 @dataclass(slots=True, repr=False)
@@ -77,7 +78,7 @@ class FunctionCall(TypedExpression):
             child
             for child in comment_nodes
             if child.start_byte > function_node.end_byte
-            and child.start_point.row == function_node.end_point.row
+            and point_row(child.start_point) == point_row(function_node.end_point)
         ]
         if inline_comment_nodes:
             inline_comment_nodes.sort(key=lambda child: child.start_byte)
